@@ -14,6 +14,11 @@ export GOCACHE="$wt.gocache"
 trap 'git -C /repo worktree remove --force "$wt" >/dev/null 2>&1; rm -rf "$wt" "$wt.gocache"' EXIT
 demo=$(ls "$sd"/*demo*_test.go 2>/dev/null | head -1)
 pkg=pub; grep -q '^package streams' "$demo" && pkg=streams
+# a demonstration for another package (e.g. astool/convert) names it in meta.json demo_cmd
+if ! grep -qE '^package (pub|streams)$' "$demo" && [ -f "$sd/meta.json" ]; then
+  p2=$(python3 -c "import json,re,sys; m=re.findall(r'\\./([A-Za-z0-9_/]+)', json.load(open('$sd/meta.json')).get('demo_cmd','')); print(m[-1].rstrip('/') if m else '')")
+  [ -n "$p2" ] && pkg=$p2
+fi
 run=$(grep -ho 'func Test[A-Za-z0-9_]*' "$demo" | sed 's/func //' | paste -sd'|')
 cp "$demo" "$wt/$pkg/"
 (cd "$wt" && go test -vet=off -count=1 -run "^($run)\$" ./$pkg/ >/dev/null 2>&1); without=$?
